@@ -21,6 +21,21 @@ def main():
     if sh("git -C /repo status --porcelain --untracked-files=no").stdout.strip():
         print("/repo has uncommitted changes; refusing"); return 2
     rows = []
+    # evidence/ must describe the unchanged tree: keep it aside while checks run against modified trees
+    import shutil, tempfile
+    keep = tempfile.mkdtemp(prefix="evidence.keep.", dir="/var/tmp")
+    shutil.copytree(os.path.join(V, "evidence"), os.path.join(keep, "evidence"))
+    try:
+        _loop(want, rows)
+    finally:
+        shutil.rmtree(os.path.join(V, "evidence"), ignore_errors=True)
+        shutil.copytree(os.path.join(keep, "evidence"), os.path.join(V, "evidence"))
+        shutil.rmtree(keep, ignore_errors=True)
+    _report(rows)
+    return 0
+
+
+def _loop(want, rows):
     for name in sorted(os.listdir(S)):
         d = os.path.join(S, name)
         if not os.path.isdir(d) or not os.path.exists(os.path.join(d, "patch.diff")):
@@ -45,6 +60,9 @@ def main():
         meta["checks_run_against_it"] = res
         json.dump(meta, open(os.path.join(d, "meta.json"), "w"), indent=1)
         rows.append((name, res))
+
+
+def _report(rows):
     with open(os.path.join(S, "RESULTS.md"), "w") as fh:
         fh.write("# Seeded property-breaking changes and the checks that report them\n\n")
         fh.write("Each change was written by an independent sub-agent that saw only the property text and a scratch worktree, and was confirmed\n"
@@ -54,7 +72,6 @@ def main():
             for x in res:
                 k = x.get("keys"); k = k if isinstance(k, str) else "; ".join(k[:3])
                 fh.write("| %s | %s | %s | %s |\n" % (name, x.get("check"), x.get("exit"), k.replace("|", "/")[:200]))
-    return 0
 
 
 if __name__ == "__main__":
